@@ -63,7 +63,8 @@ func matches(reqPath, base string) bool {
 	if base == "/" || base == "" {
 		return true
 	}
-	pTrail := strings.HasSuffix(reqPath, "/")
+	// (a final dot segment names a directory: /a/b/.. is /a/)
+	pTrail := strings.HasSuffix(reqPath, "/") || strings.HasSuffix(reqPath, "/.") || strings.HasSuffix(reqPath, "/..")
 	bTrail := strings.HasSuffix(base, "/")
 	p := path.Clean("/" + reqPath)
 	b := path.Clean(base)
@@ -96,7 +97,7 @@ func (pr protection) inScope(resource string) bool {
 	return in
 }
 
-var staticFiles = []string{"home.html", "pub/p.txt", "secret/s.txt", "secret/s.txt.gz", "secret/index.html", "secret/sub/deep.txt", "secret/page.md", "secret/t.html", "secret/excluded/e.txt", "secret/i.php", "secret/s.html"}
+var staticFiles = []string{"home.html", "pub/p.txt", "secret/s.txt", "secret/s.txt.gz", "secret/index.html", "secret/sub/deep.txt", "secret/page.md", "secret/t.html", "secret/excluded/e.txt", "secret/i.php", "secret/s.html", "secret/excluded2/e2.txt"}
 
 var backendTok = regexp.MustCompile(`[PF]TOK\[(.*?)\]END`)
 
@@ -110,7 +111,7 @@ type c03case struct {
 
 func main() {
 	rep := kit.NewReport("C03", "exploration",
-		"5 protection lines (basicauth with dir / dir+slash / single file / block with exclude; internal) x every subset of size <=2 (thorough 3) of an 18-line menu of path-rewriting and content-producing directives (rewrite abs/relative/regexp, tryfiles, ext, index, gzip, browse with and without archives, templates, markdown, proxy, fastcgi, redir) x ~250 request targets (spellings of protected names, rewrite triggers, archive queries) x methods x Accept-Encoding x credentials {none, wrong user, wrong password, valid}; unique tokens in every protected file and backend reply; valid-credential responses compared with the unprotected site; distinct_nontrivial = outcome classes")
+		"6 protection lines (basicauth with dir / dir+slash / single file / block with exclude, with and without trailing slash; internal) x every subset of size <=2 (thorough 3) of an 18-line menu of path-rewriting and content-producing directives (rewrite abs/relative/regexp, tryfiles, ext, index, gzip, browse with and without archives, templates, markdown, proxy, fastcgi, redir) x ~250 request targets (spellings of protected names, rewrite triggers, archive queries) x methods x Accept-Encoding x credentials {none, wrong user, wrong password, valid}; unique tokens in every protected file and backend reply; valid-credential responses compared with the unprotected site; distinct_nontrivial = outcome classes")
 	kit.Init()
 	kit.Log.Off.Store(true)
 	base := kit.TempDir("c03")
@@ -154,6 +155,8 @@ func main() {
 		{"basicauth-file", "basicauth /secret/s.txt u p", []string{"/secret/s.txt"}, nil, false, nil},
 		{"basicauth-block-exclude", "basicauth u p {\n\t\t/secret\n\t\texclude /secret/excluded\n\t}", []string{"/secret"}, []string{"/secret/excluded"}, false, nil},
 		{"internal", "internal /secret", []string{"/secret"}, nil, true, nil},
+		// the excluded directory written with a trailing slash: its sibling /secret/excluded2 stays protected
+		{"basicauth-block-exclude-slash", "basicauth u p {\n\t\t/secret\n\t\texclude /secret/excluded/\n\t}", []string{"/secret"}, []string{"/secret/excluded/"}, false, nil},
 		{"basicauth-two-rules", "basicauth u p {\n\t\t/secret\n\t\texclude /secret/excluded\n\t}\n\tbasicauth /secret/excluded u2 p2", []string{"/secret"}, []string{"/secret/excluded"}, false,
 			[]rule{{[]string{"/secret/excluded"}, nil, "u2", "p2"}}},
 	}
@@ -194,7 +197,7 @@ func main() {
 		subsets = append(subsets, idx)
 	})
 	// request targets
-	names := []string{"/secret/s.txt", "/secret", "/secret/", "/secret/sub/deep.txt", "/secret/page.md", "/secret/t.html", "/secret/excluded/e.txt", "/secret/index.html", "/secret/i.php", "/secret/s", "/secret/s.txt.gz"}
+	names := []string{"/secret/s.txt", "/secret", "/secret/", "/secret/sub/deep.txt", "/secret/page.md", "/secret/t.html", "/secret/excluded/e.txt", "/secret/index.html", "/secret/i.php", "/secret/s", "/secret/s.txt.gz", "/secret/excluded2/e2.txt"}
 	var targets []string
 	add := func(t string) { targets = append(targets, t) }
 	for _, n := range names {
